@@ -730,8 +730,10 @@ class SoftwareSwitchBase (object):
                         ofp=ofp)
       return
     (packet, in_port) = self._packet_buffer[buffer_id]
-    self._process_actions_for_packet(actions, packet, in_port, ofp)
+    # Free the buffer first: the actions may make the controller (re)act
+    # before they return, and the id must not be usable twice
     self._packet_buffer[buffer_id] = None
+    self._process_actions_for_packet(actions, packet, in_port, ofp)
 
   def _process_actions_for_packet (self, actions, packet, in_port, ofp=None):
     """
